@@ -14,7 +14,8 @@ def _one(seed, idx):
 def run(rep, tier):
     if THEOREMS:
         lib.proof_gate(rep, PROP, THEOREMS, IMPORTS)
-    n = 96 if tier == "quick" else 1500
+    n = 96 if tier == "quick" else 6000
+    n = rep.scale(n)
     res = lib.pmap(_one, [(rep.seed, i) for i in range(n)])
     errs = [r for r in res if "harness_error" in r]
     if errs:
